@@ -2053,6 +2053,38 @@ impl TypeSpace {
     }
 }
 
+#[cfg(feature = "verif-hooks")]
+impl TypeSpace {
+    /// Verification hook: forwards to the private `convert_integer` and
+    /// returns the name of the selected type.
+    pub(crate) fn verif_convert_integer(
+        &self,
+        metadata: &Option<Box<Metadata>>,
+        validation: &Option<Box<schemars::schema::NumberValidation>>,
+        format: &Option<String>,
+    ) -> Result<String> {
+        let (entry, _) = self.convert_integer(metadata, validation, format)?;
+        match entry.details {
+            TypeEntryDetails::Integer(name) => Ok(name),
+            _ => unreachable!(),
+        }
+    }
+
+    /// Verification hook: forwards to the private `convert_number`.
+    pub(crate) fn verif_convert_number(
+        &self,
+        metadata: &Option<Box<Metadata>>,
+        validation: &Option<Box<schemars::schema::NumberValidation>>,
+        format: &Option<String>,
+    ) -> Result<String> {
+        let (entry, _) = self.convert_number(metadata, validation, format)?;
+        match entry.details {
+            TypeEntryDetails::Float(name) => Ok(name),
+            _ => unreachable!(),
+        }
+    }
+}
+
 #[cfg(test)]
 mod tests {
     use std::num::{NonZeroU16, NonZeroU32, NonZeroU64, NonZeroU8};
